@@ -40,6 +40,10 @@ impl AsyncOverlayFS {
         if path.is_empty() {
             return Ok(self.layers[0].clone());
         }
+        // the whiteout bookkeeping is not part of the overlay's namespace
+        if path == "/.whiteout" || path.starts_with("/.whiteout/") {
+            return Err(VfsErrorKind::FileNotFound.into());
+        }
         if self.whiteout_path(path)?.exists().await? {
             return Err(VfsErrorKind::FileNotFound.into());
         }
@@ -114,6 +118,9 @@ impl AsyncFileSystem for AsyncOverlayFS {
                     entries.remove(&filename[..filename.len() - 3]);
                 }
             }
+        }
+        if path.is_empty() {
+            entries.remove(".whiteout");
         }
         Ok(Box::new(futures::stream::iter(entries)))
     }
